@@ -204,19 +204,37 @@ func traceFeatures(c *mon.Child, tr *gram.Trace) {
 	c.FeatureMax("max:subproduction_depth", int64(tr.MaxSubDepth))
 }
 
-// affordable runs the reference evaluator with unlimited lookahead (the most
-// expensive configuration: nothing is ever committed) under a step budget and
-// reports whether the input is cheap enough to hand to the real parser in the
-// metamorphic checks. Backtracking parsers are exponential on some
-// (grammar, input) pairs; such pairs are skipped and counted, so that a
-// watchdog firing later means "far beyond the reference's cost", not "slow".
+// affordable runs the reference evaluator, under a step budget, with every
+// lookahead value the real parser is about to be run with, and reports whether
+// the input is cheap enough to hand to the real parser in the metamorphic and
+// totality checks. Backtracking parsers are exponential on some (grammar,
+// input, lookahead) triples - and not monotonically in the lookahead: a
+// committed failure inside a negative lookahead group lets the parse go on
+// where unlimited lookahead would have stopped. Such triples are skipped and
+// counted, so that a watchdog firing later means "far beyond the reference's
+// cost", not "slow".
 func affordable(c *mon.Child, gp *gparsers, T []lexer.Token) bool {
-	env := gram.NewEnv(gp.g, T, gp.sym, gp.elided, gp.ci, -1, true)
-	env.Budget = 150000
-	env.Run()
-	if env.Over {
-		c.Inconclusive("reference-step-budget")
-		return false
+	ks := make([]int, 0, len(gp.byK))
+	for k := range gp.byK {
+		ks = append(ks, k)
+	}
+	if len(ks) == 0 {
+		ks = []int{-1}
+	}
+	return affordableK(c, gp, T, ks)
+}
+
+func affordableK(c *mon.Child, gp *gparsers, T []lexer.Token, ks []int) bool {
+	for _, k := range ks {
+		for _, trailing := range []bool{true, false} {
+			env := gram.NewEnv(gp.g, T, gp.sym, gp.elided, gp.ci, k, trailing)
+			env.Budget = 150000
+			env.Run()
+			if env.Over {
+				c.Inconclusive("reference-step-budget")
+				return false
+			}
+		}
 	}
 	return true
 }
